@@ -61,7 +61,20 @@ func VerifC17Toa() {
 // through the real strconv; malformed text is a conversion error, non-strings a type error.
 func VerifC17Aton() {
 	p := NewPair()
-	switch vrt.Choice("case", 5) {
+	switch vrt.Choice("case", 6) {
+	case 5:
+		// every finite float: the decimal rendering is an opaque function of the value whose
+		// inverse is strconv.ParseFloat (shortest formatting round-trips: trusted standard library);
+		// what is decided here is that toa uses that rendering and aton that parser, and that the
+		// integer-looking renderings (3.0 prints as 3) come back as an equal value
+		bits := vrt.Uint64("x.bits")
+		x := math.Float64frombits(bits)
+		vrt.Assume(x == x && x <= math.MaxFloat64 && x >= -math.MaxFloat64)
+		p.steps("bind", false, asg("x", node.Float(x)))
+		v, err := p.S.Run(bin("==", call("aton", call("toa", nm("x"))), nm("x")), true)
+		eq, ok := v.ToBool()
+		vrt.Assert(err == nil && ok && eq, "aton(toa(x))==x for every finite float")
+		vrt.Cover("all-finite-floats")
 	case 0:
 		n := vrt.Int("n")
 		p.steps("bind", false, asg("n", node.Int(n)))
